@@ -64,6 +64,7 @@ class Program:
         self.overrides = dict(overrides or {})
         self.modules: Dict[str, Module] = {}
         self._defs: Dict[str, Dict[str, ast.AST]] = {}
+        self.memo: Dict[Any, Any] = {}
         self._load()
 
     # -- loading -----------------------------------------------------------
